@@ -82,6 +82,27 @@ fn messages() -> Vec<Vec<u8>> {
         v.push(pattern(2, l));
         v.push(pattern(5, l));
     }
+    // content classes: messages that themselves look like the framing the library adds (length byte + magic, the magic
+    // alone, a complete framed preimage, the magic followed by a compact size) - the digest must still be over the
+    // framed message, whatever the message starts with
+    let mut framed = wire::cs_encode(MAGIC.len() as u64);
+    framed.extend_from_slice(MAGIC);
+    v.push(framed.clone());
+    v.push(MAGIC.to_vec());
+    let inner = b"hello".to_vec();
+    let mut full = framed.clone();
+    full.extend_from_slice(&wire::cs_encode(inner.len() as u64));
+    full.extend_from_slice(&inner);
+    v.push(full.clone());
+    let mut twice = framed.clone();
+    twice.extend_from_slice(&wire::cs_encode(full.len() as u64));
+    twice.extend_from_slice(&full);
+    v.push(twice);
+    let mut m = MAGIC.to_vec();
+    m.extend_from_slice(&[0xfd, 0x00, 0x01]);
+    v.push(m);
+    v.push(vec![0x18]);
+    v.push(vec![0xfd, 0xfd, 0x00]);
     v
 }
 
